@@ -73,7 +73,9 @@ def parseInt64 (s : String) : Option Int :=
 /-! ## base64 (Go `base64.StdEncoding`) -/
 
 def b64Alphabet : List Char :=
-  "ABCDEFGHIJKLMNOPQRSTUVWXYZabcdefghijklmnopqrstuvwxyz0123456789+/".toList
+  ['A','B','C','D','E','F','G','H','I','J','K','L','M','N','O','P','Q','R','S','T','U','V','W','X','Y','Z',
+   'a','b','c','d','e','f','g','h','i','j','k','l','m','n','o','p','q','r','s','t','u','v','w','x','y','z',
+   '0','1','2','3','4','5','6','7','8','9','+','/']
 
 def b64Char (n : Nat) : Char := b64Alphabet.getD n 'A'
 
@@ -96,20 +98,23 @@ def b64EncodeChars : Bytes → List Char
 /-- `base64.StdEncoding.EncodeToString` -/
 def b64Encode (b : Bytes) : String := String.ofList (b64EncodeChars b)
 
-/-- quanta of four characters; `=` padding only in the last quantum; trailing bits are not checked
+/-- quanta of four characters; `=` padding only at the very end; trailing bits are not checked
 (Go's decoder is not strict) -/
 def b64DecodeChars : List Char → Option Bytes
   | [] => some []
-  | [a, b, '=', '='] => do
-    let va ← b64Val a; let vb ← b64Val b
-    pure [UInt8.ofNat (va * 4 + vb / 16)]
-  | [a, b, c, '='] => do
-    let va ← b64Val a; let vb ← b64Val b; let vc ← b64Val c
-    pure [UInt8.ofNat (va * 4 + vb / 16), UInt8.ofNat (vb % 16 * 16 + vc / 4)]
-  | a :: b :: c :: d :: rest => do
-    let va ← b64Val a; let vb ← b64Val b; let vc ← b64Val c; let vd ← b64Val d
-    let r ← b64DecodeChars rest
-    pure (UInt8.ofNat (va * 4 + vb / 16) :: UInt8.ofNat (vb % 16 * 16 + vc / 4) :: UInt8.ofNat (vc % 4 * 64 + vd) :: r)
+  | a :: b :: c :: d :: rest =>
+    if d = '=' then
+      if !rest.isEmpty then none
+      else if c = '=' then do
+        let va ← b64Val a; let vb ← b64Val b
+        pure [UInt8.ofNat (va * 4 + vb / 16)]
+      else do
+        let va ← b64Val a; let vb ← b64Val b; let vc ← b64Val c
+        pure [UInt8.ofNat (va * 4 + vb / 16), UInt8.ofNat (vb % 16 * 16 + vc / 4)]
+    else do
+      let va ← b64Val a; let vb ← b64Val b; let vc ← b64Val c; let vd ← b64Val d
+      let r ← b64DecodeChars rest
+      pure (UInt8.ofNat (va * 4 + vb / 16) :: UInt8.ofNat (vb % 16 * 16 + vc / 4) :: UInt8.ofNat (vc % 4 * 64 + vd) :: r)
   | _ => none
 
 /-- `base64.StdEncoding.DecodeString`: carriage returns and line feeds are skipped anywhere -/
@@ -186,6 +191,12 @@ def ecbDecrypt (C : BlockCipher) (key src : Bytes) : Decrypted :=
 
 /-! ## what a wrapped handler does, and what the client gets back -/
 
+/-- text ↔ bytes for ASCII text (base64 bodies) -/
+def asciiBytes (s : String) : Bytes := s.toList.map fun c => UInt8.ofNat c.toNat
+
+def bytesToString (b : Bytes) : String := String.ofList (b.map fun x => Char.ofNat x.toNat)
+
+
 /-- the wrapped (user) handler: the body it reads ↦ the bytes it writes -/
 abbrev Inner := Bytes → Bytes
 
@@ -205,9 +216,7 @@ def flushResp (C : BlockCipher) (key : Bytes) (seen out : Bytes) : Resp :=
   if out.isEmpty then { ran := true, seen := seen, status := 200 }
   else match ecbEncrypt C key out with
     | none => { ran := true, seen := seen, status := 500 }
-    | some ct => { ran := true, seen := seen, status := 200, body := (b64Encode ct).toUTF8.toList }
-
-def bytesToString (b : Bytes) : String := String.ofList (b.map fun x => Char.ofNat x.toNat)
+    | some ct => { ran := true, seen := seen, status := 200, body := asciiBytes (b64Encode ct) }
 
 /-- `LimitCryptionHandler(limitBytes, key)(next)`; `cl` is `r.ContentLength`, `raw` the bytes in `r.Body` -/
 def cryptionHandler (C : BlockCipher) (limit : Int) (key : Bytes) (cl : Int) (raw : Bytes) (inner : Inner) : Resp :=
@@ -265,9 +274,9 @@ inductive CsParseErr where
 
 /-- `security.ParseContentSecurity` -/
 def parseContentSecurity (env : CsEnv) (req : CsReq) : Except CsParseErr CsHeader :=
-  let (fp, secret, sig) := req.header.getD ("", "", "")
-  if fp.isEmpty ∨ secret.isEmpty ∨ sig.isEmpty then .error .invalidHeader
-  else match env.rsa fp secret with
+  let hd := req.header.getD ("", "", "")
+  if hd.1.isEmpty ∨ hd.2.1.isEmpty ∨ hd.2.2.isEmpty then .error .invalidHeader
+  else match env.rsa hd.1 hd.2.1 with
     | .noKey => .error .invalidPublicKey
     | .err => .error .invalidSecret
     | .ok plain =>
@@ -277,7 +286,7 @@ def parseContentSecurity (env : CsEnv) (req : CsReq) : Except CsParseErr CsHeade
       | some key =>
         match parseInt64 (attr attrs "type") with
         | none => .error .invalidContentType
-        | some ct => .ok { key := key, timestamp := attr attrs "time", contentType := ct, signature := sig }
+        | some ct => .ok { key := key, timestamp := attr attrs "time", contentType := ct, signature := hd.2.2 }
 
 /-- `getPathQuery`: a parsable X-Request-Uri replaces path and query of the request -/
 def pathQuery (env : CsEnv) (req : CsReq) : String × String :=
